@@ -365,9 +365,10 @@ def rtd_goals(p, t, v, y):
         hi_tac = "rewrite rtd_quartic_expand; unf; lra" if hi == 0.0 else "rewrite rtd_quartic_expand; unf; num"
         coeffs = "(rtd_quartic_coefficients %s %s %s %s (rtd_r_t %s %s %s %s))" % (
             rh(p["a"]), rh(p["b"]), rh(p["c"]), rh(p["r0"]), rh(p["i"]), rh(p["lead"]), zc(p["cfg"]), rh(v))
-        corr = ("Goal forall pr, negative_roots_ok (pr %s) %s -> corr (rtd_scale pr %s) %s %s. "
+        corr = ("Goal forall pr, small_roots_ok (pr %s) %s -> corr (rtd_scale pr %s) %s %s. "
                 "Proof. intros pr Hok. apply (rtd_scale_corr_neg pr %s %s %s %s %s); "
-                "[lra|lra|lra|lra|unf; lra|lra|lra|lra|lra|rewrite rtd_quartic_expand; unf; num|%s|exact Hok]. Qed."
+                "[lra|lra|lra|lra|unfold RTD_ROOT_TOLERANCE; lra|unf; lra|lra|lra|lra|lra|"
+                "rewrite rtd_quartic_expand; unf; num|%s|exact Hok]. Qed."
                 % (coeffs, coeffs, args, rh(y), rh(tol), args, rh(y), rh(tol), rh(lo), rh(hi), hi_tac))
     sign_lemma = "cvd_eval_pos" if t >= 0 else "cvd_eval_neg"
     fwd = ("Goal Rabs (current_excitation_voltage %s %s %s (cvd %s %s %s %s %s) - %s) <= %s. "
@@ -824,8 +825,9 @@ def main():
         run.sample({"case": s["case"], "voltage": s["v"], "implementation": s["y"], "goal": s["goals"][0][1][:400]})
     run.assumptions = [
         "real-number model: float rounding of the implementation is bounded per sample (1e-9 relative), not by a theorem",
-        "numpy.polynomial.polynomial.polyroots is an oracle: assumed to list each negative real root of the RTD "
-        "quartic once (negative_roots_ok); validated per sample by the bracket goals and the direct oracle",
+        "numpy.polynomial.polynomial.polyroots is an oracle: assumed to list each real root below 1e-9 of the RTD "
+        "quartic once (small_roots_ok; the filter of _get_negative_real_root after repair D23); validated per sample "
+        "by the bracket goals and the direct oracle",
         "lead-wire law follows NI: no lead term for a 2-wire voltage-excited thermistor (pinned by the test-suite "
         "against LabVIEW values); gain adjustment multiplies the strain reading (NI-DAQmx definition)",
         "Coq Reals axioms as listed by Print Assumptions; the Interval tactic (kernel-checked by Qed)"]
